@@ -28,6 +28,9 @@ def gen_keys(rng, ks):
         k[bit // 8] ^= 0x80 >> (bit % 8)
         keys.append(bytes(k))
     keys.append(bytes(rng.randrange(256) for _ in range(ks)))
+    # the extreme paths (all-zero and all-one keys: leading zero bytes vanish in the integer form of the key) now and then
+    if rng.random() < 0.3:
+        keys.append(rng.choice([b"\x00" * ks, b"\xff" * ks, b"\x00" * (ks - 1) + b"\x01", b"\x80" + b"\x00" * (ks - 1)]))
     return keys
 
 
